@@ -132,6 +132,8 @@ func runC19(args []string) {
 		"validation-failing schemas, missing imports, a nonexistent path, a directory, a directory of several files formatted twice. Fault cells (strace -e inject, GOMAXPROCS=1): for EVERY k up to the number of openat/write/rename*/close/fsync " +
 		"system calls a fault-free run makes, the k-th call fails (EACCES/ENOSPC/EIO) and, separately, the process is killed (SIGKILL) at it; plus RLIMIT_FSIZE. Oracle: a failed or killed run leaves the target's previous contents (a kill may also leave the complete new contents); " +
 		"exit status != 0 iff an error message was printed; a successful bebopfmt -w leaves a file that the real ReadFile parses to the same schema as before (comments aside). " +
+		"Near-language inputs (text-level edits of two fixed schemas: line breaks after keywords/attributes, doubled line ends ...) are classed by the real ReadFile at run time: rejected ones are inputs the tool cannot process, accepted ones must keep their meaning. " +
+		"Several files in one bebopfmt -w run: one of them cannot be rewritten (250-byte name, in every position), or the k-th openat/write/rename/close/fchmod/unlinkat call of the three-file run fails or kills the process, for every k; afterwards every file must be byte-identical to before or denote its own schema. " +
 		"distinct_nontrivial = distinct (tool, input class, fault kind, syscall, k) cells."
 	r.Assume = []string{"strace can attach (ptrace available) and counts the k-th call per thread: the tools run with GOMAXPROCS=1 so that all their I/O happens on one thread",
 		"a left-over temporary file after a kill is not a violation"}
@@ -264,6 +266,31 @@ func runC19(args []string) {
 	}}
 	for _, l := range schema.Layouts {
 		cells = append(cells, &c19Cell{tool: "bebopfmt", input: "valid:consts-between-definitions/" + l.Name, fault: "none", setup: format(schema.Print(dense, l))})
+	}
+	// near-language texts (a line break between a keyword or attribute and what follows, doubled line
+	// ends, ...): the real ReadFile decides the class - rejected texts are inputs the tool cannot
+	// process (it must fail and leave the file alone), accepted ones must keep their meaning
+	for _, base := range []struct {
+		name string
+		s    *schema.Schema
+	}{{"consts-between-definitions", dense}, {"commented", commented}} {
+		for _, l := range schema.Layouts {
+			for _, p := range textPerturbations() {
+				if p.layout != l.Name {
+					continue
+				}
+				orig := schema.Print(base.s, l)
+				t := p.f(orig)
+				if t == orig {
+					continue
+				}
+				class := "invalid:near-language/"
+				if _, ok := parse([]byte(t)); ok {
+					class = "valid:near-language/"
+				}
+				cells = append(cells, &c19Cell{tool: "bebopfmt", input: class + base.name + "+" + p.name, fault: "none", setup: format(t)})
+			}
+		}
 	}
 	cells = append(cells, &c19Cell{tool: "bebopfmt", input: "valid:everything-on-one-line", fault: "none",
 		setup: format("const int32 a = 1; const int32 b = 2; [opcode(2)] struct S { int32 x; } const string c = \"x\"; readonly struct R { int32 y; } enum E { A = 1; } const bool d = true; message M { 1 -> int32 z; }\n")})
@@ -406,6 +433,7 @@ func runC19(args []string) {
 	close(next)
 	wg.Wait()
 	c19Directory(r, bebopfmt, validSchema, parse)
+	c19SeveralFilesFaults(r, bebopfmt, parse)
 	c19MixedAndAbsent(r, bebopfmt, bebopc, validSchema, dupSchema, missingImport, syntaxErr, parse)
 	r.Set("cells", len(cells))
 	finish(r)
@@ -659,4 +687,139 @@ func c19MixedAndAbsent(r *core.Run, bebopfmt, bebopc, valid, dup, missingImport,
 		}
 		os.RemoveAll(d)
 	}
+}
+
+// c19SeveralFilesFaults: bebopfmt -w over three files in one run while rewriting one of them fails -
+// (a) a file whose name is so long that no temporary sibling can be created, in every position;
+// (b) every counted openat/write/rename/close/fchmod call of the fault-free run failing or killing the
+// process in turn. Whatever happens, every file must afterwards be byte-identical to what it was or
+// denote the same schema as before (nothing of another file's text may end up in it), and the exit
+// status must agree with whether an error was reported.
+func c19SeveralFilesFaults(r *core.Run, bebopfmt string, parse func([]byte) (*model.File, bool)) {
+	long := "long" + strings.Repeat("a", 242) + ".bop" // 250 bytes: ".<name>.tmpNNNN" exceeds NAME_MAX
+	texts := map[string]string{
+		"a_first.bop":  "struct   OnlyInA{int32   a;string b;}\nmessage AlsoInA {1->int32 x;}\n",
+		"b_second.bop": "enum OnlyInB : uint16 {\n  A = 1;\n  B = 2;\n}\nconst int32 kb = 5;\n",
+		"c_third.bop":  "union   OnlyInC{1->struct CBranch{guid g;}}\n",
+		long:           "message   OnlyInLong{1->string   s;}\n",
+	}
+	type run struct {
+		name   string
+		files  []string
+		inject string
+	}
+	runs := []run{
+		{"long-name-first", []string{long, "a_first.bop", "b_second.bop"}, ""},
+		{"long-name-middle", []string{"a_first.bop", long, "b_second.bop"}, ""},
+		{"long-name-last", []string{"a_first.bop", "b_second.bop", long}, ""},
+	}
+	three := []string{"a_first.bop", "b_second.bop", "c_third.bop"}
+	setup := func(d string, files []string) []string {
+		os.RemoveAll(d)
+		os.MkdirAll(d, 0o755)
+		argv := []string{bebopfmt, "-w"}
+		for _, n := range files {
+			os.WriteFile(filepath.Join(d, n), []byte(texts[n]), 0o644)
+			argv = append(argv, n)
+		}
+		return argv
+	}
+	sys := []string{"openat", "write", "rename", "renameat", "renameat2", "close", "fchmod", "fchmodat", "unlinkat"}
+	errFor := map[string]string{"openat": "EACCES", "write": "ENOSPC", "close": "EIO"}
+	cd := filepath.Join(work(), "c19several-count")
+	counts := countSyscalls(cd, setup(cd, three), sys)
+	os.RemoveAll(cd)
+	for _, sname := range sys {
+		e := errFor[sname]
+		if e == "" {
+			e = "EIO"
+		}
+		for k := 1; k <= counts[sname]; k++ {
+			runs = append(runs, run{fmt.Sprintf("error:%s", sname), three, fmt.Sprintf("%s:error=%s:when=%d", sname, e, k)})
+			runs = append(runs, run{fmt.Sprintf("kill:%s", sname), three, fmt.Sprintf("%s:signal=KILL:when=%d", sname, k)})
+		}
+	}
+	r.Set("several_files_fault_runs", len(runs))
+	var wg sync.WaitGroup
+	next := make(chan int)
+	for w := 0; w < nproc(); w++ {
+		wg.Add(1)
+		go func() {
+			defer wg.Done()
+			for i := range next {
+				ru := runs[i]
+				d := filepath.Join(work(), "c19several", fmt.Sprintf("r%04d", i))
+				argv := setup(d, ru.files)
+				res := runCLI(d, argv, ru.inject, "")
+				r.Eval("bebopfmt|several-files-fault|" + ru.name + "|" + ru.inject)
+				faultKind, sysname := ru.name, ""
+				if j := strings.IndexByte(ru.name, ':'); j >= 0 {
+					faultKind, sysname = ru.name[:j], ru.name[j+1:]
+				}
+				loc := map[string]string{"tool": "bebopfmt", "input": "several-files", "fault": faultKind, "syscall": sysname}
+				shown := make([]string, len(argv)-1)
+				for j, a := range argv[1:] {
+					shown[j] = core.Short(a, 40)
+				}
+				detail := map[string]any{"argv": shown, "inject": ru.inject, "exit": res.exit, "killed": res.killed, "stdout": core.Short(res.stdout, 300), "stderr": core.Short(res.stderr, 300)}
+				if res.timeout {
+					r.Inconclusive("tool run timed out")
+					os.RemoveAll(d)
+					continue
+				}
+				if strings.Contains(res.stderr, "ptrace") || strings.Contains(res.stderr, "PTRACE") {
+					r.Inconclusive("strace could not attach")
+					os.RemoveAll(d)
+					continue
+				}
+				if !res.killed {
+					rep := errorReported(res)
+					msgMayBeLost := faultKind == "error" && sysname == "write"
+					if (res.exit != 0) != rep && !(msgMayBeLost && res.exit != 0) {
+						r.Violate("exit status and error reporting disagree", loc, detail)
+					}
+					if ru.inject == "" && res.exit == 0 {
+						r.Violate("tool reports success on an input it cannot process", loc, detail)
+					}
+				}
+				for pos, n := range ru.files {
+					after, err := os.ReadFile(filepath.Join(d, n))
+					if err == nil && string(after) == texts[n] {
+						continue
+					}
+					detail["file"], detail["position"] = core.Short(n, 40), pos+1
+					detail["contents_after"] = core.Short(string(after), 600)
+					if err != nil || (n == long && ru.inject == "") {
+						r.Violate("failed run damaged the target file", loc, detail)
+						continue
+					}
+					of, ok1 := parse([]byte(texts[n]))
+					af, ok2 := parse(after)
+					if !ok1 {
+						r.Inconclusive("original does not parse")
+						continue
+					}
+					if !ok2 {
+						if res.exit != 0 || res.killed {
+							r.Violate("failed run damaged the target file", loc, detail)
+						} else {
+							r.Violate("bebopfmt -w succeeded but the rewritten file does not parse", loc, detail)
+						}
+						continue
+					}
+					if df := schema.Diff(*of, *af, schema.DiffOpts{IgnoreComments: true, IgnoreFileName: true}); df != "" {
+						detail["diff"] = df
+						r.Violate("bebopfmt -w succeeded but the rewritten file denotes a different schema", loc, detail)
+					}
+				}
+				os.RemoveAll(d)
+			}
+		}()
+	}
+	for i := range runs {
+		next <- i
+	}
+	close(next)
+	wg.Wait()
+	os.RemoveAll(filepath.Join(work(), "c19several"))
 }
